@@ -167,6 +167,21 @@ def _corrupt(v, rnd):
     return v, False
 
 
+# the fields of each trace's events that carry what the REAL CODE did (the rest describes the input or is
+# informational): the binding self-test corrupts one of these
+OBSERVED = {
+    "C01_Trace": ["records"], "C02_Trace": ["viaparser", "viarecord", "viastruct", "printed"],
+    "C03_Trace": ["lines", "reparsed", "deterministic", "locsok", "panic"],
+    "C04_Trace": ["ha", "hb", "err", "h", "canon"], "C06_Trace": ["p", "splits"], "C07_Trace": ["res", "dna"],
+    "C10_Trace": ["frags"], "C11_Trace": ["rc", "comp", "rev", "pal", "rcrc", "rca", "rcb", "rcab", "vars", "varsrc"],
+    "C12_Trace": ["o", "idx"], "C13_Trace": ["got", "closes", "panic"], "C14_Trace": ["lines", "parsed", "panic"],
+    "C15_Trace": ["json", "back", "seqsafter", "same"], "C16_Trace": ["parsed", "exported"],
+    "C17_Trace": ["s", "list"], "C18_Trace": ["err", "add", "comp", "compba", "dna"],
+    "C19_Trace": ["dh10", "ds3", "tmc", "md", "mdok", "defok", "caseok", "tmu"],
+    "C20_Trace": ["got", "errors", "closede", "closedr", "timeout"],
+}
+
+
 def binding_selftest(ctx, E, name, module, cfg, trace, n_events, timeout, heap, merge=False):
     """Binding self-test (VERIF_BINDING=1): corrupt one recorded field in each of up to 12 events of a trace that
     was accepted, re-run the trace spec and count how many corrupted events it now rejects. The result goes into
@@ -180,7 +195,17 @@ def binding_selftest(ctx, E, name, module, cfg, trace, n_events, timeout, heap, 
         if len(lines[i]) > 200000:
             continue
         ev = json.loads(lines[i])
-        ev2, ok = _corrupt(ev, rnd)
+        keys = [k for k in OBSERVED.get(module, []) if isinstance(ev, dict) and k in ev]
+        rnd.shuffle(keys)
+        ok = False
+        for k in keys:
+            c, ok = _corrupt(ev[k], rnd)
+            if ok:
+                ev[k] = c
+                break
+        ev2 = ev
+        if not ok:
+            ev2, ok = _corrupt(ev, rnd)
         if ok:
             lines[i] = json.dumps(ev2)
             done.append(i + 1)
